@@ -87,9 +87,30 @@ func (p *StrMap[V]) LoadFromMap(m map[string]V) error {
 
 // LoadFromSlice resets StrMap and loads from slices, len(kk) must equal to len(vv)
 func (m *StrMap[V]) LoadFromSlice(kk []string, vv []V) error {
-	if len(kk) != len(vv) {
+	if err := checkKeys(kk, len(vv)); err != nil {
+		return err
+	}
+	m.load(kk, vv)
+	return nil
+}
+
+// checkKeys reports whether kk can be loaded together with n values.
+// It must be called before any state is reset, so that a failed load changes nothing.
+func checkKeys(kk []string, n int) error {
+	if len(kk) != n {
 		return errors.New("kv len not match")
 	}
+	for _, k := range kk {
+		if len(k) > math.MaxUint32 {
+			// it doesn't make sense ...
+			return errors.New("key too large")
+		}
+	}
+	return nil
+}
+
+// load resets StrMap and loads from slices which have been checked by checkKeys.
+func (m *StrMap[V]) load(kk []string, vv []V) {
 	m.data = m.data[:0]
 	m.items = m.items[:0]
 	m.hashtable = m.hashtable[:0]
@@ -106,10 +127,6 @@ func (m *StrMap[V]) LoadFromSlice(kk []string, vv []V) error {
 	}
 
 	for i, k := range kk {
-		if len(k) > math.MaxUint32 {
-			// it doesn't make sense ...
-			return errors.New("key too large")
-		}
 		v := vv[i]
 		m.items = append(m.items,
 			mapItem[V]{
@@ -121,7 +138,6 @@ func (m *StrMap[V]) LoadFromSlice(kk []string, vv []V) error {
 		m.data = append(m.data, k...)
 	}
 	m.makeHashtable()
-	return nil
 }
 
 // Len returns the size of map
@@ -259,8 +275,8 @@ func NewStr2StrFromMap(m map[string]string) *Str2Str {
 
 // LoadFromSlice resets Str2Str and loads from slices.
 func (sm *Str2Str) LoadFromSlice(kk, vv []string) error {
-	if len(kk) != len(vv) {
-		return errors.New("kv len not match")
+	if err := checkKeys(kk, len(vv)); err != nil {
+		return err
 	}
 	if sm.strStore == nil {
 		sm.strStore = strstore.New()
@@ -272,7 +288,8 @@ func (sm *Str2Str) LoadFromSlice(kk, vv []string) error {
 	if sm.strMap == nil {
 		sm.strMap = New[int]()
 	}
-	return sm.strMap.LoadFromSlice(kk, ids)
+	sm.strMap.load(kk, ids)
+	return nil
 }
 
 // LoadFromMap resets Str2Str and loads from map.
